@@ -918,6 +918,7 @@ func (ex *Exec) callContract(st *State, c *Contract, fi *FuncInfo, ct *callTarge
 						continue
 					}
 					var srt *Sort
+					var gty types.Type
 					if lam, isLam := g.RHS.(*SLambda); isLam {
 						cenv := penv.child()
 						_, vs := penv.resolveType(lam.Vars[0].Type)
@@ -928,9 +929,10 @@ func (ex *Exec) callContract(st *State, c *Contract, fi *FuncInfo, ct *callTarge
 							srt = ex.w.seqSort(body.S)
 						}
 					} else {
-						srt = penv.with(pre).eval(g.RHS).S
+						iv := penv.with(pre).eval(g.RHS)
+						srt, gty = iv.S, iv.Go
 					}
-					penv.bind[id.Name] = Val{T: ex.w.freshConst("wit_"+id.Name, srt), S: srt}
+					penv.bind[id.Name] = Val{T: ex.w.freshConst("wit_"+id.Name, srt), S: srt, Go: gty}
 				}
 			}
 			for _, g := range c.Ghosts {
